@@ -125,6 +125,13 @@ theorem resume_good (app : App) (s : St) (h : Good app s) : Good app (resumeProd
   refine J_quiet h { s.chan with waiting := false } ⟨rfl, rfl, rfl⟩ rfl rfl (if !s.chan.handling then [.tpause false] else []) ?_
   split <;> simp [isQuiet]
 
+/-- the application drops the client (`request.loseConnection()`): only `transport.loseConnection()` happens -/
+theorem close_good (app : App) (s : St) (h : Good app s) : Good app (appClose s) := by
+  unfold Good appClose at *
+  split
+  · exact J_quiet h { s.chan with closed := true } ⟨rfl, rfl, rfl⟩ rfl rfl [Out.lose] rfl
+  · exact h
+
 theorem lost_good (app : App) (s : St) (h : Good app s) (hl : s.lost = false) : Good app (connectionLost s) := by
   unfold Good at h ⊢
   rw [hl] at h
@@ -160,6 +167,10 @@ theorem step_good (app : App) (s : St) (op : Op) (h : Good app s) : Good app (st
     case pause => split; exact h; exact pause_good app s h
     case resume => split; exact h; exact resume_good app s h
     case lose => rw [if_neg hl]; exact lost_good app s h hl'
+    case close =>
+      split
+      · exact h
+      · exact close_good app s h
 
 /-- **the invariant holds after every history** -/
 theorem runOps_good (app : App) (s : St) (ops : List Op) (h : Good app s) : Good app (runOps app s ops) := by
